@@ -72,6 +72,16 @@ def cases(tier, seed):
             if t[0] == "equ":
                 for prime in ("LB-{}", "LB+{}", "{}+1"):
                     yield {"pos": pos, "l": list(t), "op": None, "r": None, "prime": prime}
+        # the label sits on the very first statement of the program (statement index 0, address 0: no ORG, no EQU before it)
+        if pos in ("fcb", "fdb", "rmb", "equ"):
+            continue        # these positions do not evaluate symbols at all (KF-C04-1, KF-C04-2): the layout adds nothing there
+        lb = ("LB", None, None, None)
+        yield {"pos": pos, "l": list(lb), "op": None, "r": None, "first": True}
+        for t in CORE_TERMS:
+            if t[0] == "lit" or (t[0] == "equ" and t[3] == "after"):
+                for op in ("+", "-"):
+                    yield {"pos": pos, "l": list(lb), "op": op, "r": list(t), "first": True}
+                yield {"pos": pos, "l": list(t), "op": "+", "r": list(lb), "first": True}
 
 
 def term_text(t, name):
@@ -100,11 +110,11 @@ def build(case):
         for t, name in ((l, "EA"), (r, "EB")):
             if t and t[0] == "equ":
                 primes.append(" LDU #" + case["prime"].format(name))
-    mid = [" ORG $4000", "LB NOP"] + primes + [stmt]
+    mid = ([" ORG $4000", "LB NOP"] if not case.get("first") else ["LB NOP", " NOP", " NOP"]) + primes + [stmt]
     if pos == "equ":
         mid.append(" LDX #Q")
     mid.append("LA NOP")
-    return pre + mid + post, len(pre) + 2 + len(primes)
+    return pre + mid + post, len(pre) + (3 if case.get("first") else 2) + len(primes)
 
 
 def all_programs(tier):
@@ -189,6 +199,8 @@ def check_case(case):
     w = WIDTH[pos]
     cell = "{}|{}|{}|{}".format(pos, kind_tag(case["l"]), case["op"] or "single", kind_tag(case["r"]))
     nprime = 0
+    if case.get("first"):
+        cell = cell.replace(pos + "|", pos + ".first|", 1)
     if case.get("prime"):
         cell = cell.replace(pos + "|", "{}.after[{}]|".format(pos, case["prime"].format("S")), 1)
         nprime = sum(1 for t in (case["l"], case["r"]) if t and t[0] == "equ")
@@ -200,10 +212,10 @@ def check_case(case):
                      "input": dict(case, lines=lines)})
 
     # label values: LB is fixed by the ORG; LA is read from the symbol table when accepted
-    syms = {"LB": 0x4000}
+    syms = {"LB": 0x4000 if not case.get("first") else 0}
     if out["kind"] == "OK":
         syms["LA"] = out["symbols"].get("LA")
-        if out["symbols"].get("LB") != 0x4000 or syms["LA"] is None:
+        if out["symbols"].get("LB") != syms["LB"] or syms["LA"] is None:
             bad("labels missing or moved", "LB=$4000, LA listed", str(out["symbols"]), "?")
             res["viol"] = viol
             return res
@@ -245,7 +257,7 @@ def check_case(case):
         res["viol"] = viol
         return res
     image = out["image"]
-    body = image[1 + 3 * nprime:-1]
+    body = image[(3 if case.get("first") else 1) + 3 * nprime:-1]
     if pos == "equ":
         body = body            # the LDX #Q statement
     rm = r % 65536
@@ -324,7 +336,7 @@ def check_case(case):
 def describe(tier):
     return {
         "alphabet": "positions {} x (single term | term op term, op in + - * /) x terms: literals {} in spellings, EQU constants of the same "
-                    "values (+300) in spellings defined before/after use, label before use (LB=$4000), label after use (LA)".format(POSITIONS, VALS),
+                    "values (+300) in spellings defined before/after use, label before use (LB=$4000), label after use (LA), and LB on the first statement of a program without ORG (statement index 0, address 0) with +- a literal or a later EQU".format(POSITIONS, VALS),
         "bound": "all single terms; all ordered pairs over " + ("a 14-term core" if tier == "quick" else "the full term set") + " x 4 operators x 14 positions",
         "oracle": "integer arithmetic (labels = symbol-table addresses); accepted => decoded field = r mod 2^w and r representable in w bits "
                   "(or negative within the signed range); /0 => diagnostic; results outside 0..65535 => diagnostic or r mod 65536; "
